@@ -232,6 +232,14 @@ func probesFor(p PatSpec) []OriginSpec {
 		if o.Host[0] == '.' || strings.Contains(o.Host, "..") {
 			return
 		}
+		if !o.IP6 { // well-formed hosts only: lower-case letters, digits, hyphen, underscore, dot
+			for i := 0; i < len(o.Host); i++ {
+				c := o.Host[i]
+				if !(c >= 'a' && c <= 'z' || c >= '0' && c <= '9' || c == '-' || c == '_' || c == '.') {
+					return
+				}
+			}
+		}
 		out = append(out, o)
 	}
 	ports := []int{0, 1, 80, 443, 8080, 65535}
@@ -261,6 +269,21 @@ func probesFor(p PatSpec) []OriginSpec {
 			hosts = append(hosts, strings.TrimSuffix(h, "."), "a."+strings.TrimSuffix(h, "."))
 		} else {
 			hosts = append(hosts, h+".", "a."+h+".")
+		}
+		// one byte replaced by a smaller / greater neighbour: last byte, first byte, and the byte before the first dot
+		repl := func(pos int, nb byte) {
+			if pos >= 0 && pos < len(h) && h[pos] != nb && h[pos] != '.' {
+				hosts = append(hosts, h[:pos]+string(nb)+h[pos+1:], "a."+h[:pos]+string(nb)+h[pos+1:])
+			}
+		}
+		for _, pos := range []int{len(h) - 1, 0, strings.IndexByte(h, '.') - 1} {
+			if pos >= 0 && pos < len(h) {
+				repl(pos, h[pos]-1)
+				repl(pos, h[pos]+1)
+				repl(pos, 'a')
+				repl(pos, 'z')
+				repl(pos, '0')
+			}
 		}
 	} else {
 		hosts = append(hosts, p.Host+"1", "1"+p.Host)
